@@ -185,8 +185,11 @@ class Undefined(Exception):
     """The documentation gives the combination no meaning (circular merges); not generated."""
 
 
-def model(case, posix_order=False, explicit_wins=False, nonlast_err_captured=False):
+def model(case, posix_order=False, explicit_wins=False, nonlast_err_captured=False, defects=frozenset()):
     """-> {"error": True} or {"places": {place: [lines]}, "files": {name: lines-or-None}, "append": {name: ninit}}.
+
+    `defects` switches on the routing of recorded findings (see FINDINGS) so that a failing case can be attributed
+    to a finding only when the observation is *exactly* what that defect produces.
 
     Readings the documentation leaves open are parameters; the oracle accepts any of them:
       posix_order          a merge (e>o / o>e) written *before* the other stream's file redirect binds to that
@@ -269,7 +272,11 @@ def model(case, posix_order=False, explicit_wins=False, nonlast_err_captured=Fal
                 error = error or "stdout both redirected and piped"
         plans.append((slot, order))
     if error:
-        return {"error": True, "why": error}
+        return {"error": True, "why": error, "allow_touch": "C07-F7" in defects}
+    if "C07-F6" in defects:
+        # unthreadable alias with `<`: the alias dies with a TypeError before it writes anything
+        return {"error": False, "crash": None if cap == "object" else "CalledProcessError",
+                "places": {"term1": [], "term2": [], "capout": [], "caperr": []}, "files": dict(files), "append": {}}
 
     def default_out(i):
         if i < n - 1:
@@ -285,6 +292,19 @@ def model(case, posix_order=False, explicit_wins=False, nonlast_err_captured=Fal
         out, err = slot["out"], slot["err"]
         if out == ("=err",) and err == ("=out",):
             raise Undefined()
+        last = i == n - 1
+        kind = stages[i]["kind"]
+        if "C07-F2" in defects and last and cap == "stdout" and out == ("=err",) and err is None:
+            out = None              # $( ... o>e): stdout falls back to the inherited fd 1
+        if "C07-F1" in defects and last and kind == "thr" and out is None and err is None and (
+                cap == "uncap" or (cap == "stdout" and "C07-F2" in defects)):
+            err = ("=out",)         # ProcProxyThread treats "neither redirected" as "stderr == stdout"
+            if cap == "stdout":
+                out = ("term", 1)
+        if "C07-F2" in defects and last and cap == "stdout" and slot["out"] == ("=err",) and out is None:
+            out = ("term", 1)
+        if "C07-F4" in defects and kind == "unt" and err == ("=out",) and cap in ("bare", "hidden", "uncap"):
+            err = None              # ProcProxy ignores the merge flag
         if out is None:
             out = default_out(i)
         if err is None:
@@ -322,19 +342,63 @@ def model(case, posix_order=False, explicit_wins=False, nonlast_err_captured=Fal
                 sinks.setdefault(sink, []).extend(lines)
     places = {"term1": sinks.get(("term", 1), []), "term2": sinks.get(("term", 2), []),
               "capout": sinks.get(("cap", "out"), []), "caperr": sinks.get(("cap", "err"), [])}
-    return {"error": False, "places": places, "files": result_files, "append": append_n}
+    res = {"error": False, "places": places, "files": result_files, "append": append_n}
+    if "C07-F3" in defects:
+        places["caperr"] = []       # the stderr pipe of an unthreadable last stage is never read
+    if "C07-F5" in defects:
+        res["crash"] = "AttributeError"
+        res["subset"] = True        # the exception races with the alias thread: output may or may not have arrived
+    return res
 
 
-def expectations(case):
+def expectations(case, defects=frozenset()):
     """All accepted readings (deduplicated).  Raises Undefined."""
     outs = []
     for po, ew, ne in itertools.product((False, True), repeat=3):
         if ne and not (case["cap"] == "object" and len(case["stages"]) > 1):
             continue
-        m = model(case, posix_order=po, explicit_wins=ew, nonlast_err_captured=ne)
+        m = model(case, posix_order=po, explicit_wins=ew, nonlast_err_captured=ne, defects=defects)
         if m not in outs:
             outs.append(m)
     return outs
+
+
+# ----------------------------------------------------------------------------------------
+# recorded findings: shape predicates (which cases a defect can touch at all)
+
+FINDINGS = ("C07-F1", "C07-F2", "C07-F3", "C07-F4", "C07-F5", "C07-F6", "C07-F7")
+
+
+def _stage_sems(st):
+    return [TABLE.get(r["op"], ("?",))[0] for r in st.get("redirs", []) if r.get("raw") is None]
+
+
+def applicable(case):
+    """Finding ids whose *shape* the case has.  Attribution additionally needs the exact symptom."""
+    out = []
+    stages = case["stages"]
+    last = stages[-1]
+    cap = case["cap"]
+    ts = bool(case.get("ts", True))
+    ls = _stage_sems(last)
+    routed = {"out", "err", "all", "e2o", "o2e", "a2p", "e2p"}
+    if last["kind"] == "thr" and ts and cap in ("uncap", "stdout") and not (set(ls) & routed - ({"o2e"} if cap == "stdout" else set())):
+        out.append("C07-F1")
+    if cap == "stdout" and "o2e" in ls and not (set(ls) & {"err", "all", "e2o", "a2p", "e2p"}):
+        out.append("C07-F2")
+    if cap == "object" and (last["kind"] == "unt" or not ts):
+        out.append("C07-F3")
+    if any(s["kind"] == "unt" and "e2o" in _stage_sems(s) for s in stages) and cap in ("bare", "hidden", "uncap"):
+        out.append("C07-F4")
+    if cap in ("bare", "hidden", "uncap") and ((last["kind"] == "unt" and "o2e" in ls) or
+                                               (last["kind"] == "thr" and cap == "uncap" and "e2o" in ls)):
+        out.append("C07-F5")
+    if any(s["kind"] == "unt" and "in" in _stage_sems(s) for s in stages):
+        out.append("C07-F6")
+    if sum(1 for _i, _k, r in iter_redirs(case) if r.get("tgt") is not None and r.get("raw") is None
+           and TABLE.get(r["op"], ("?",))[0] in ("out", "err", "all")):
+        out.append("C07-F7")
+    return out
 
 
 # ----------------------------------------------------------------------------------------
@@ -461,6 +525,26 @@ def _setup(scratch):
     return _state
 
 
+def _quiesce(had_exc):
+    """Let alias threads (and, after an exception, orphaned children) finish while the terminal capture is still in
+    place, so that late output cannot leak into the next case."""
+    import threading
+    import time
+
+    for t in threading.enumerate():
+        if t is not threading.current_thread() and type(t).__name__ in ("ProcProxyThread", "PopenThread"):
+            t.join(3.0)
+    if had_exc:
+        t0 = time.time()
+        while time.time() - t0 < 2.0:
+            try:
+                pid, _ = os.waitpid(-1, os.WNOHANG)
+            except ChildProcessError:
+                break
+            if pid == 0:
+                time.sleep(0.005)
+
+
 class _Terminal:
     """fd-level terminal capture (see module docstring)."""
 
@@ -581,17 +665,17 @@ def execute(case):
     exc = None
     capout = caperr = None
     term = _Terminal()
+    term.__enter__()
     signal.setitimer(signal.ITIMER_REAL, HANG_S, 2.0)
     try:
         try:
-            with term:
-                session.xexec(src)
-                r = XSH.ctx.get("r")
-                if case["cap"] == "stdout":
-                    capout = r if isinstance(r, str) else repr(r)
-                elif case["cap"] == "object" and r is not None:
-                    r.end()
-                    capout, caperr = r.out, r.err
+            session.xexec(src)
+            r = XSH.ctx.get("r")
+            if case["cap"] == "stdout":
+                capout = r if isinstance(r, str) else repr(r)
+            elif case["cap"] == "object" and r is not None:
+                r.end()
+                capout, caperr = r.out, r.err
         except _Timeout:
             exc = "HANG"
         except SyntaxError:
@@ -599,8 +683,14 @@ def execute(case):
         except BaseException as e:  # noqa: BLE001
             exc = type(e).__name__
             st["last_exc"] = "%s: %s" % (type(e).__name__, str(e)[:300])
+        try:
+            if exc != "HANG":
+                _quiesce(exc is not None)
+        except _Timeout:
+            exc = "HANG"
     finally:
         signal.setitimer(signal.ITIMER_REAL, 0)
+        term.__exit__()
     t1, t2 = term.read()
     try:
         from xonsh.procs.jobs import get_tasks
@@ -661,13 +751,24 @@ def compare(case, exp, obs):
                 tagged = [ln for ln in (lines or []) if ln not in (init.get(name) or [])]
                 if tagged:
                     probs.append("delivered-despite-error: file %s has %r" % (name, tagged))
+                elif exp.get("allow_touch") and obs["exc"] == "XonshError" and lines == []:
+                    pass            # C07-F7: created / truncated before the command was rejected
                 elif STRICT_UNTOUCHED:
                     probs.append("target-touched: file %s was %r, now %r" % (name, init.get(name), lines))
         return probs
-    if obs["exc"] is not None:
+    if obs["exc"] != exp.get("crash"):
+        if obs["exc"] is not None:
+            probs.append("unexpected-exception: %s" % (obs["msg"] or obs["exc"]))
+        else:
+            probs.append("exception-expected: %s" % exp.get("crash"))
+    if exp.get("crash") == "AttributeError" and "'int' object has no attribute 'readable'" not in (obs["msg"] or ""):
         probs.append("unexpected-exception: %s" % (obs["msg"] or obs["exc"]))
     for place in ("term1", "term2", "capout", "caperr"):
         want, got = Counter(exp["places"][place]), Counter(obs["places"][place])
+        if exp.get("subset"):
+            if got - want:
+                probs.append("extra@%s: %r" % (place, sorted((got - want).elements())))
+            continue
         if want != got:
             miss = sorted((want - got).elements())
             extra = sorted((got - want).elements())
@@ -744,7 +845,21 @@ def check_case(case):
 
 
 def classify(case, exp, obs, probs):
-    """Narrow predicates of the recorded findings, evaluated on the failing case and its symptom."""
+    """Narrow predicates of the recorded findings, evaluated on the failing case and its symptom: the case must have
+    the finding's shape (applicable) AND the observation must be exactly what the model predicts with that defect
+    (and, when several defects meet in one case, the smallest set of them) switched on."""
+    if obs is None or obs["exc"] == "HANG":
+        return None
+    app = applicable(case)
+    for size in range(1, len(app) + 1):
+        for sub in itertools.combinations(app, size):
+            try:
+                exps = expectations(case, defects=frozenset(sub))
+            except Undefined:
+                return None
+            for e in exps:
+                if not compare(case, e, obs):
+                    return sub[0]
     return None
 
 
